@@ -176,19 +176,19 @@ Section FunctionRT.
 
   Definition info_values : list IValue := filter should_create (map fvf decl).
 
-  Lemma ser_function_ok inodes ias l' :
+  Lemma ser_function_ok (create : bool) inodes ias l' :
     Forall2 (node_rel sgn irvo) (f_nodes f) inodes ->
     Forall (fun ia => attr_has_value ia = true) ias ->
     mapM (ser_attr sg) ias = Ok l' ->
     exists nps,
       map (norm_node norm_graph empty_graph) nps = map (norm_node norm_graph empty_graph) (f_nodes f)
-      /\ ser_function_gen fuel' allow_vinfo irvo (the_fn inodes ias)
+      /\ ser_function_gen fuel' create irvo (the_fn inodes ias)
          = Ok (mkFunctionP (truthy_s (dflt [] (f_name f))) (truthy_s (dflt [] (f_domain f)))
                            (truthy_s (dflt [] (f_overload f))) (truthy (f_doc f))
                            (f_inputs f) (f_outputs f) (f_attr f) l' nps (dict_of (f_opsets f))
-                           (if allow_vinfo then map (ser_value []) info_values else [])
+                           (if create then map (ser_value []) info_values else [])
                            (ksort (dict_of (f_meta f))),
-               if allow_vinfo then []
+               if create then []
                else map (fun v => ser_value ((dflt [] (f_domain f) ++ [58; 58]%N ++ dflt [] (f_name f) ++ [47]%N) ++ v_name v) v)
                         info_values).
   Proof.
@@ -289,7 +289,7 @@ Section FunctionRT.
     destruct f_nodes_phase as (inodes & Hn & HF).
     destruct f_attrs_phase as (ias & Ha & Hnames & Hval & l' & Hser & Hnorm).
     exists (the_fn inodes ias). split; [exact (deser_function_ok inodes ias Hn Ha Hnames)|].
-    destruct (ser_function_ok inodes ias l' HF Hval Hser) as (nps & Hnps & Hs).
+    destruct (ser_function_ok allow_vinfo inodes ias l' HF Hval Hser) as (nps & Hnps & Hs).
     eexists. rewrite Hs. split.
     - f_equal. f_equal. remember allow_vinfo as c eqn:Ec in |- *. destruct c; [reflexivity|].
       rewrite info_values_nil; [reflexivity|]. apply (f_vinfo_allowed _ _ _ W). symmetry. exact Ec.
